@@ -11,16 +11,17 @@ _ALL = "ALL byte strings of CONCRETE length L = {n} (symbolic opcodes, symbolic 
 _SHAPE = "ONE code shape with CONCRETE opcode positions ({shape}) and ALL immediate-data bytes symbolic; " + _CHK
 _K = lambda h, bound, t, **kw: dict(crate="kinterp", harness="c04::" + h, bounded=True, bound=bound, timeout=t, mem_gb=12, **kw)
 _KANI = [
-    # quick tier: the shape that separates "JUMPDEST hidden in push data" from a real one (474 s under load)
+    # quick tier: the shape that separates "JUMPDEST hidden in push data" from a real one, with the two opcodes adjacent to
+    # the PUSH range as real instructions (112 s on the idle machine, 400-500 s at load average 50)
     _K("shape_push1_data", _SHAPE.format(shape="PUSH0 DUP1 PUSH1 d JUMPDEST, L = 5"), 1200),
     # thorough tier
-    _K("table_len0", _ALL.format(n=0), 900, thorough_only=True),                                               # 142 s
-    _K("shape_trunc_push32", _SHAPE.format(shape="JUMPDEST PUSH32 truncated by the end of code, L = 2"), 1200, thorough_only=True),  # 345 s
-    _K("shape_trunc_push31", _SHAPE.format(shape="JUMPDEST PUSH31 truncated, L = 2"), 1200, thorough_only=True),
-    _K("shape_trunc_push1", _SHAPE.format(shape="JUMPDEST PUSH1 truncated, L = 2"), 1200, thorough_only=True),
-    _K("shape_trunc_push2_mid", _SHAPE.format(shape="PUSH2 d truncated in the middle of its data, L = 2"), 1200, thorough_only=True),
-    _K("shape_push2_data", _SHAPE.format(shape="JUMPDEST PUSH2 d d JUMPDEST, L = 5"), 1500, thorough_only=True),
-    _K("shape_push32_data", _SHAPE.format(shape="PUSH32 d*32 JUMPDEST JUMPDEST, L = 35"), 2400, thorough_only=True),
+    _K("table_len0", _ALL.format(n=0), 900, thorough_only=True),                                               # 149 s
+    _K("shape_trunc_push32", _SHAPE.format(shape="JUMPDEST PUSH32 truncated by the end of code, L = 2"), 1200, thorough_only=True),  # 345-589 s
+    _K("shape_trunc_push31", _SHAPE.format(shape="JUMPDEST PUSH31 truncated, L = 2"), 1200, thorough_only=True),   # 438 s
+    _K("shape_trunc_push1", _SHAPE.format(shape="JUMPDEST PUSH1 truncated, L = 2"), 1200, thorough_only=True),     # 289 s
+    _K("shape_trunc_push2_mid", _SHAPE.format(shape="PUSH2 d truncated in the middle of its data, L = 2"), 1500, thorough_only=True),  # 727 s
+    _K("shape_push2_data", _SHAPE.format(shape="JUMPDEST PUSH2 d d JUMPDEST, L = 5"), 1800, thorough_only=True),  # 791 s
+    _K("shape_push32_data", _SHAPE.format(shape="PUSH32 d*32 JUMPDEST JUMPDEST, L = 35"), 3000, thorough_only=True),  # 1428 s, 9.3 GB
 ]
 
 PROP = dict(
